@@ -97,6 +97,19 @@ func (r *Report) Write(out string) error {
 	return os.WriteFile(filepath.Join(out, "meta.json"), b, 0o644)
 }
 
+// emergencyFlush writes what has been collected so far and ends the process: used when the
+// implementation hangs in a goroutine that cannot be stopped (it may eat all memory).
+var emergencyOut string
+
+func emergencyFlush(rep *Report) {
+	rep.Extra["aborted"] = "a call into the implementation did not return; the run was cut short after recording the violation"
+	if err := rep.Write(emergencyOut); err != nil {
+		fmt.Fprintln(os.Stderr, err)
+		os.Exit(2)
+	}
+	os.Exit(0)
+}
+
 type runner func(tier string, seed uint64, rep *Report)
 
 var runners = map[string]runner{}
@@ -121,6 +134,7 @@ func main() {
 		os.Exit(2)
 	}
 	rep := NewReport(flag.Arg(0))
+	emergencyOut = *out
 	run(*tier, *seed, rep)
 	if err := rep.Write(*out); err != nil {
 		fmt.Fprintln(os.Stderr, err)
